@@ -48,7 +48,7 @@ def vw(b):
 class C14(Prop):
     id = "C14"
     title = "Output reaches the client in order, exactly once, under any write pattern"
-    lean_modules = ["NV.C14.Props", "NV.C14.PropsHist"]
+    lean_modules = ["NV.C14.Props", "NV.C14.PropsHist", "NV.C14.PropsNeg"]
     theorems = ["NV.C14.model_satisfies_spec", "NV.C14.ring_inv", "NV.C14.ring_indices_in_bounds",
                 "NV.C14.chunk_in_bounds", "NV.C14.no_fault", "NV.C14.write_interest_when_pending",
                 "NV.C14.N_two_le", "NV.C14.only_tail_lost", "NV.C14.write_stores_prefix_image",
@@ -82,11 +82,21 @@ class C14(Prop):
             "EINTR, close/peer close/peer FIN with pending data) + seeded random histories of write/vwrite/sendres/"
             "flush/cycle/wready/close/peerfin/peerclose with message lengths on both sides of the buffer size, "
             "LF densities 0..1 and send scripts of partial/W/I/P/E results, half of them started at a random ring "
-            "offset, for three kinds of user (PORT_ASCII, PORT_TELNET with its connect negotiation, console user); a case is non-trivial when its trace has >= 2 lines; distinct = distinct canonical "
+            "offset, for three kinds of user (PORT_ASCII, PORT_TELNET with its connect negotiation, console user), one to "
+            "three users per case with independent send scripts, snoop links (set, replaced, loop refused, cleared by "
+            "close), flush_messages() efun with and without argument, send results given as plain errno numbers; the "
+            "quantifier of the property is covered as: writes of all lengths = 0,1,2,10,100,1000,N-2..N+2,2N,3N+7,random "
+            "up to 12400 bytes; send results = full, partial of every size class (1..5, 6..600, around N, up to the ring "
+            "end +-2, any), EWOULDBLOCK, EINTR, EPIPE, ECONNRESET; flush points = explicit, per cycle, write-ready, "
+            "efun, close, peer close, peer FIN; a case is non-trivial when its trace has >= 2 lines; distinct = distinct canonical "
             "implementation trace")
     not_covered = ["console reconnect (console_mode option) and the console worker thread; the console user's output path "
                    "itself (write(2) branch of flush_message, flush at the end of add_message) is modelled and run",
-                   "snoop forwarding (receive_snoop) from add_message/add_vmessage (an LPC call after the loop; does not touch the ring)",
+                   "telnet negotiation replies written from copy_chars (input driven) interleaved with text: they use the same "
+                   "add_message/flush_message calls, but no C14 case sends input bytes",
+                   "snooper LPC code that itself writes to users (re-entrancy of add_message from receive_snoop)",
+                   "several users: routing, snoop relation and tagging are compared with the implementation, not proved "
+                   "(each user's own stream is a single-user run by construction)",
                    "telnet IAC doubling is not done by the code and not claimed",
                    "builds with FLUSH_OUTPUT_IMMEDIATELY",
                    "Windows IOCP runtime (only the Linux epoll runtime is run)"]
@@ -101,7 +111,10 @@ class C14(Prop):
                 return X.probe_values(bdir, [("v", name)], self.const_headers, self.const_prelude)["v"]
             except X.TieBroken:
                 raise X.TieBroken("guard:flush_message.errno", "errno name %s of flush_message is not a constant" % name)
-        return T.extract(src, errno_value)
+        sites = T.shape_checks(lambda rel: open(os.path.join(E.REPO, rel), errors="replace").read())
+        self.shape_sites = sites
+        return T.extract(src, errno_value) + "\n\n-- control-flow shapes checked against the source on this run (props/c14_extract.py SHAPES):\n-- " \
+            + "\n-- ".join(sites)
 
     def prepare(self, ctx):
         self.exe = E.compile_harness("c14", [os.path.join(E.VERIF, "harness/c14/c14.c")], exclude_objs=("comm.c.o",))
@@ -282,7 +295,7 @@ class C14(Prop):
         if k == "any":
             return str(rng.range(1, N))
         if k == "E":
-            return "E104" if rng.chance(9, 10) else "P"
+            return rng.weighted([("E104", 6), ("P", 1), ("E11", 2), ("E4", 1)])      # E11/E4: EWOULDBLOCK/EINTR as plain numbers
         return k
 
     def gen_case(self, rng, cid):
@@ -343,8 +356,65 @@ class C14(Prop):
     def histogram(self, cases, impl):
         h = {"send_accept_full": 0, "send_accept_partial": 0, "send_W": 0, "send_I": 0, "send_P": 0, "send_Eother": 0,
              "send_offered_lt_pending": 0, "writes": 0, "vwrites": 0, "max_msg_len": 0, "cases_ring_full": 0,
-             "cases_wrapped": 0, "closes": 0, "cases_dead": 0, "want_set": 0}
+             "cases_wrapped": 0, "closes": 0, "cases_dead": 0, "want_set": 0,
+             # branches of the model (seen from the trace)
+             "inloop_flush_sends": 0, "inloop_refused_giveup": 0, "inloop_refused_after_progress": 0, "inloop_dead": 0,
+             "vwrite_trailing_flush_sends": 0, "writes_on_dead_or_closed": 0,
+             "lf_guard_chunk_N_minus_1": 0, "snoop_forwards": 0, "users_ascii_or_default": 0, "users_telnet": 0,
+             "users_console": 0, "cases_multi_user": 0, "peerfin": 0, "peerclose": 0, "eflush_or_flushall": 0,
+             "sendres_E_keep": 0}
         for c in cases:
+            users = set()
+            for l in c.lines:
+                t = l.split()
+                if t and t[0].startswith("@"):
+                    users.add(t[0])
+                    t = t[1:]
+                if t[:1] == ["connect"]:
+                    h["users_" + ("telnet" if t[1] == "telnet" else "console" if t[1] == "console" else "ascii_or_default")] += 1
+                elif t[:1] == ["peerfin"]:
+                    h["peerfin"] += 1
+                elif t[:1] == ["peerclose"]:
+                    h["peerclose"] += 1
+                elif t[:1] in (["eflush"], ["flushall"]):
+                    h["eflush_or_flushall"] += 1
+                elif t[:1] == ["sendres"] and len(t) > 1:
+                    h["sendres_E_keep"] += sum(1 for x in t[1].split(",") if x in ("E11", "E4"))
+            if len(users - {"@1"}) > 0:
+                h["cases_multi_user"] += 1
+            inw = {}        # per user: None / [kind, sends so far, last was accept, gone at start]
+            gone = {}
+            for l in impl.get(c.id, []):
+                t = l.split()
+                if len(t) < 2 or not t[0].startswith("u"):
+                    continue
+                u, t = t[0], t[1:]
+                if t[0] == "wbeg":
+                    inw[u] = [t[1], 0, False]
+                    if gone.get(u):
+                        h["writes_on_dead_or_closed"] += 1
+                elif t[0] == "wend":
+                    inw[u] = None
+                elif t[0] == "snoop":
+                    h["snoop_forwards"] += 1
+                elif t[0] == "close" or (t[0] == "st" and (t[1] == "closed" or t[-1] == "1")):
+                    gone[u] = True
+                elif t[0] == "send" and inw.get(u):
+                    w_ = inw[u]
+                    w_[1] += 1
+                    if t[1] == str(N - 1):
+                        h["lf_guard_chunk_N_minus_1"] += 1
+                    if t[2] == "a":
+                        h["inloop_flush_sends"] += 1
+                        w_[2] = True
+                    elif t[2] in ("W", "I", "E11", "E4"):
+                        h["inloop_refused_after_progress" if w_[2] else "inloop_refused_giveup"] += 1
+                        w_[2] = False
+                    else:
+                        h["inloop_dead"] += 1
+                        gone[u] = True
+                    if w_[0] == "v":
+                        h["vwrite_trailing_flush_sends"] += 1
             full = wrapped = dead = False
             pending = 0
             for l in impl.get(c.id, []):
